@@ -88,17 +88,20 @@ func (cs *chkSelector) getPosForward(ctx context.Context, pos journal.Pos) (chun
 		pIdx = 0
 	}
 
+	var np uint32
 	for ; idx < n; idx++ {
 		chk = cks[idx]
 		chkSt := cs.getChunkStatus(ctx, chk, cks)
-		if np, ok := chkSt.checkPosOrAdvance(pIdx); ok {
+		var ok bool
+		if np, ok = chkSt.checkPosOrAdvance(pIdx); ok {
 			return chk, chkSt, journal.Pos{chk.Id(), np}, nil
 		}
 		pIdx = 0
 	}
 
-	// ok, the last one
-	return nil, nil, journal.Pos{chk.Id(), chk.Count()}, nil
+	// ok, the last one. The position is the end of the chunk as it was when the position was checked (np is
+	// chkSt.count then): reading chk.Count() again here would step over the records flushed in between
+	return nil, nil, journal.Pos{chk.Id(), np}, nil
 }
 
 // getPosBackward checks position and move it backward if it is needed. It also returns the chunk
